@@ -87,9 +87,15 @@ class SimE(Simulator):
             ops.append(["tick", rng.randint(1, 3), 0.1])
         n_cmds = rng.randint(2, 8)
         state_guess = "Stopped"
+        # a quarter of the runs mix Pause and Hold: the four flag commands in a drawn order after Start (each of the
+        # 24 orders is a different path through the (holding, paused) square)
+        mix = rng.sample(["Pause", "Hold", "Unpause", "Unhold"], 4) + [rng.choice(["Unpause", "Unhold", "Pause", "Hold"])] \
+            if rng.random() < 0.25 else None
         for i in range(n_cmds):
             if state_guess == "Stopped" and rng.random() < 0.85:
                 c = "Start"
+            elif mix:
+                c = mix.pop(0)
             else:
                 c = rng.choice(CONTROL)
             ops.append(["user", c])
